@@ -251,7 +251,9 @@ def ds9_file(draw, max_stmts):
             # generated: the manual does not say what it means)
             if draw(st.booleans()):
                 pr.insert(draw(st.integers(0, len(pr))), ['include', 1])
-            stmts.append({'k': 'global', 'props': pr, 'term': '\n'})
+            stmts.append({'k': 'global', 'props': pr, 'term': '\n',
+                          'case': draw(st.sampled_from(
+                              ['lower', 'lower', 'upper', 'cap']))})
         elif kind == 'composite':
             fr = frame if frame is not None else 'image'
             pixel = fr == 'image'
